@@ -54,6 +54,28 @@ type forestPrinter struct {
 	budget int // remaining nodes; <0 = exceeded
 	extra  func(v string) int
 	memo   map[string]int
+	// sharing mode (coqForestShared): every alias target is bound ONCE by a `let` and referred to by name, so the
+	// term is linear in the size of the alias GRAPH although it denotes the (possibly exponential) unfolding
+	share bool
+	names map[*yaml.Node]string
+	defs  []string
+}
+
+// ref writes the name of the let-bound term of an alias target (sharing mode), creating the binding on first use.
+func (p *forestPrinter) ref(n *yaml.Node) {
+	if name, ok := p.names[n]; ok {
+		p.b.WriteString(name)
+		return
+	}
+	sub := &forestPrinter{budget: p.budget, extra: p.extra, memo: p.memo, share: true, names: p.names}
+	sub.defs = p.defs
+	sub.node(n)
+	p.defs = sub.defs
+	p.budget = sub.budget
+	name := fmt.Sprintf("shared_%d", len(p.names))
+	p.names[n] = name
+	p.defs = append(p.defs, fmt.Sprintf("let %s := %s in", name, sub.b.String()))
+	p.b.WriteString(name)
 }
 
 // forestNodeExtra: optional per-node annotation bits (C01: does the scalar decode into a Go string / int).
@@ -193,14 +215,22 @@ func (p *forestPrinter) node(n *yaml.Node) {
 		p.b.WriteString(")")
 	case n.Kind == yaml.AliasNode && n.Alias != nil && n.Value == "" && len(n.Content) == 0:
 		fmt.Fprintf(&p.b, "(Al %s %d %d %d ", coqStr(tag), n.Line, n.Column, a)
-		p.node(n.Alias)
+		if p.share {
+			p.ref(n.Alias)
+		} else {
+			p.node(n.Alias)
+		}
 		p.b.WriteString(")")
 	default:
 		fmt.Fprintf(&p.b, "(Node %s %s %s %d %d %d ", kindName(n.Kind), coqStr(tag), coqStr(n.Value), n.Line, n.Column, a)
 		p.list(n.Content)
 		if n.Alias != nil {
 			p.b.WriteString(" (Some ")
-			p.node(n.Alias)
+			if p.share {
+				p.ref(n.Alias)
+			} else {
+				p.node(n.Alias)
+			}
 			p.b.WriteString(")")
 		} else {
 			p.b.WriteString(" None")
@@ -231,6 +261,52 @@ func coqForest(docs []parser.VerifDoc, extra func(string) int) (string, bool) {
 	}
 	p.b.WriteString("]")
 	return p.b.String(), p.budget >= 0
+}
+
+// coqForestShared prints the same list as coqForest but with every alias target let-bound once (see forestPrinter.share):
+// `(let shared_0 := … in let shared_1 := … in [(doc, nlines)])`.  Used for the directed alias-doubling cases: the graph has
+// ~60 nodes, its unfolding more than a million.
+func coqForestShared(docs []parser.VerifDoc) (string, bool) {
+	p := &forestPrinter{budget: 6000, memo: map[string]int{}, share: true, names: map[*yaml.Node]string{}}
+	p.b.WriteString("[")
+	for i, d := range docs {
+		if i > 0 {
+			p.b.WriteString("; ")
+		}
+		p.b.WriteString("(")
+		p.node(d.Node)
+		fmt.Fprintf(&p.b, ", %d%%nat)", d.NLines)
+	}
+	p.b.WriteString("]")
+	return "(" + strings.Join(p.defs, " ") + " " + p.b.String() + ")", p.budget >= 0
+}
+
+// lastSharedSkip: why the last forestCaseShared call produced no case.
+var lastSharedSkip string
+
+// forestCaseShared: a Run.C19 case for a document whose alias graph is small but whose unfolding may be huge (no alias
+// cycles): the forest is serialised with sharing, both modes are run on the real parser.
+func forestCaseShared(id int, content []byte, schema parser.Schema, names model.ValidationScheme) (term string, fs, fr parser.File) {
+	model.NameValidationScheme = names
+	docs, lines, yerr, _ := parser.VerifForest(content)
+	lastDocs = docs
+	if hasAliasCycle(docs) {
+		return "", fs, fr
+	}
+	forest, ok := coqForestShared(docs)
+	fs, ps := parseReal(content, true, schema, names)
+	fr, pr := parseReal(content, false, schema, names)
+	if !ok || ps != "" || pr != "" {
+		lastSharedSkip = fmt.Sprintf("budget-ok=%v strict-panic=%q relaxed-panic=%q", ok, ps, pr)
+		return "", fs, fr
+	}
+	yl := "None"
+	if yerr != nil {
+		yl = fmt.Sprintf("(Some %d%%nat)", yerr.Line)
+	}
+	term = fmt.Sprintf("{| c_id := %d; c_thanos := %s; c_lines := %s; c_docs := %s; c_yerr := %s;\n c_strict := (Some %s);\n c_relaxed := (Some %s) |}",
+		id, coqBool(schema == parser.ThanosSchema), coqStrList(lines), forest, yl, coqFile(fs), coqFile(fr))
+	return term, fs, fr
 }
 
 // ---- observed parser.File as a Model/Parser.v `file` term (error message texts are not compared) ----
